@@ -255,9 +255,12 @@ def do_run(spec):
         else:
             proc = LevyProcess(W.build_model(fixed[spec["process"]]))
         conf = ConfigurationStandard(mc_paths=spec["paths"], seed=spec.get("seed"), nb_of_processes=spec["workers"])
-        st = Engine(conf, proc).price(product)
-        levels = [np.asarray(st._payoff_statistics.stats, dtype=float).reshape(-1)]
-        fine = [levels[0]]
+        eng = Engine(conf, proc)
+
+        def price_once():
+            st = eng.price(product)
+            lv = [np.asarray(st._payoff_statistics.stats, dtype=float).reshape(-1).copy()]
+            return lv, [lv[0]]
     else:
         from rpylib.montecarlo.configuration import ConfigurationMultiLevel, ConvergenceRates
         from rpylib.montecarlo.multilevel.engine import Engine
@@ -276,14 +279,31 @@ def do_run(spec):
         conf = ConfigurationMultiLevel(convergence_rates=ConvergenceRates(alpha=1.0, beta=2.0, gamma=1.0), initial_level=2 if spec["process"] != "copula" else 1,
                                        maximum_level=3 if spec["process"] != "copula" else 2, initial_mc_paths=spec["paths"], seed=spec.get("seed"), nb_of_processes=spec["workers"])
         eng = Engine(conf, cp)
-        st = eng.price_with_constant_mc_paths_and_level(product) if spec["engine"] == "mlmc-fixed" else eng.price(product, spec.get("rmse", 0.5))
-        levels, fine = [], []
-        for l in range(len(st.mc_statistics)):
-            arr = np.asarray(st.mc_statistics[l]._payoff_statistics.stats, dtype=float)
-            levels.append(arr.reshape(-1))
-            fine.append(arr[:, 0, 0].copy())
+
+        def price_once():
+            st = eng.price_with_constant_mc_paths_and_level(product) if spec["engine"] == "mlmc-fixed" else eng.price(product, spec.get("rmse", 0.5))
+            lv, fn = [], []
+            for l in range(len(st.mc_statistics)):
+                arr = np.asarray(st.mc_statistics[l]._payoff_statistics.stats, dtype=float)
+                lv.append(arr.reshape(-1).copy())
+                fn.append(arr[:, 0, 0].copy())
+            return lv, fn
+
+    levels, fine = price_once()
     digest = hashlib.sha1(b"".join(a.tobytes() for a in levels)).hexdigest()
-    return {"digest": digest, "levels": [a.tolist() for a in levels], "fine": [a.tolist() for a in fine]}
+    out = {"digest": digest, "levels": [a.tolist() for a in levels], "fine": [a.tolist() for a in fine]}
+    if spec.get("reprice"):
+        # the same engine / configuration objects priced a second time in the same interpreter, generators used in between
+        import random
+
+        np.random.seed(424242)
+        np.random.normal(size=11)
+        random.seed(77)
+        random.random()
+        levels2, _ = price_once()
+        out["digest2"] = hashlib.sha1(b"".join(a.tobytes() for a in levels2)).hexdigest()
+        out["levels2"] = [a.tolist() for a in levels2]
+    return out
 
 
 if __name__ == "__main__":
